@@ -198,8 +198,15 @@ def build_forward(run, prop, E):
         E.ghost["cnt_q"] = SInt(E.fresh_int("cnt_q"))
         E.ghost["hd_calls"] = []
         E.sheap["burst_drop_amount"] = z3.Array(E.fresh("burst_drop_amount"), I, I)
-        for k in ("trx", "tx_msg"):
-            fr.locals.pop(k, None)
+        fr.locals.pop("trx", None)
+        # loop-carried locals: whatever an earlier iteration left behind.  `tx_msg` is then a copy that an earlier recipient has
+        # already CONSUMED: handle_data_msg may strip its burst and set nope_ind (its frame, C10/C18) - or nothing yet (first iteration).
+        if "tx_msg" in fr.locals or E.choose(2, "carried") == 1:
+            dm = toolkit("data_msg")
+            old = SObj(dm.RxMsg, {"fn": SInt(E.fresh_int("old.fn")), "tn": SInt(E.fresh_int("old.tn")), "ver": SInt(E.fresh_int("old.ver")),
+                                  "burst": None, "nope_ind": True}, label="consumed-copy")
+            old.trans_of = None
+            fr.locals["tx_msg"] = old if E.choose(2, "carried_kind") == 1 else None
 
     def inv(E, fr, i):
         c = Z(E.ghost["cnt_q"])
